@@ -59,7 +59,7 @@ CLAIMS = {
           'every emitted history is concretised under 4 delimiter/line-break settings and read by the real X12Reader, and every execution (plus the repository '
           'fixtures and concatenations of them) is trace-validated by TLC (T_Envelope): the Recount definition decides violations per segment and at cleanup, '
           'the Envelope transcription is compared state-by-state (counters, loop stack, error list) and reports drift.',
-  'note': 'Control numbers range over 2-3 values (only equality matters); a blank HL02 makes no claim; LX numbering is claimed only after a CLM of the same set '
+  'note': 'Control numbers range over 2-3 abstract values rendered into the document in three styles (equally padded numeric, alphanumeric, numerically equal but textually different header/trailer) and judged as the strings the reader parsed; a blank HL02 makes no claim; LX numbering is claimed only after a CLM of the same set '
           'with the caller-enabled 837 check; error classes are compared as (level, code) sets. Trusted: TLC, concretiser/projection in lib/c04.py.',
   'technique': 'TLA+ refinement check (TLC) of reader model vs recount definition + replay of TLC histories into X12Reader + TLC trace validation of recorded executions',
  },
@@ -78,8 +78,10 @@ CLAIMS = {
   'text': 'TLC checks on WriterGen, for every well-nested write history <=6/7 (trailers supplied with right/wrong/absent counts and ids, or omitted) and every prefix as a Close '
           'point, that the implementation-shaped writer model (X12Writer.Write/_popToLoop/_close_* over X12Base counters) equals the definition WriterDef (non-trailers in order, '
           'generated trailers with header control number and recount), that the reader model accepts the result and the recount is clean; every history is written through the '
-          'real X12Writer under 5 delimiter/eol settings and both ISA versions; per-Write appended segments, the closed stream, its re-read by the real X12Reader and the ISA '
-          'delimiters are trace-validated by TLC (T_Writer), as are seeded random histories up to 18/40 writes and the repository fixtures piped reader->writer.',
+          'real X12Writer: segments are parsed under 7 source delimiter sets and written under 6 writer settings (control characters included), both ISA versions; the full 42-combination '
+          'matrix, covering all 16 writer-role = source-role coincidences, runs on the short histories; per-Write appended segments, the closed stream, its re-read by the real X12Reader and '
+          'the ISA as observed in the output text (Writer!IsaFault decides whether it carries the writer\'s delimiters) are trace-validated by TLC (T_Writer), as are seeded random histories '
+          'up to 18/40 writes and the repository fixtures piped reader->writer.',
   'note': 'Duplicate control numbers supplied by the caller are copied (reader errors 025/6/23 not attributed to the writer); LX renumbering option off; trusted: TLC, output splitter/projection in lib/c11.py.',
   'technique': 'TLA+ refinement check (TLC) writer model vs definition + replay of TLC histories into X12Writer + TLC trace validation',
  },
@@ -111,7 +113,7 @@ CLAIMS = {
           'count defect, that nothing else is altered and that fixing is idempotent; every emitted history is written to a file under 3 delimiter triples x none/LF/CRLF and normalised by the '
           'real pyx12.scripts.x12norm.main() under the option combinations of eol and count fixing, to stdout, -o file and in place, and a second time; output segments (element by element), '
           'layout (line break after each terminator when asked, final newline), equality of the three destinations and idempotence are trace-validated by TLC (T_Norm).',
-  'note': 'Inputs are generated envelope/HL skeletons with fixed representative values (no composites); count fixing is only specified for inputs whose only defects are counts; quick tier samples '
+  'note': 'Real-size inputs (16-25 KB) sweep a terminator / CR / LF across the 8 KiB read boundaries under every line-break convention. Inputs are generated envelope/HL skeletons with fixed representative values (no composites); count fixing is only specified for inputs whose only defects are counts; quick tier samples '
           '2000 histories per alphabet. Trusted: TLC, output splitter in lib/c20.py (splits on the declared terminator and separator only).',
   'technique': 'TLA+ model checking (TLC) of the fixing rule vs recount definition + replay of TLC histories through x12norm.main() + TLC trace validation',
  },
@@ -124,7 +126,7 @@ CLAIMS = {
           'transcription (T_MapWalk: result node, pops, pushes, error codes in order, counter). Quick: 6 maps + every small map; thorough: every loadable indexed map. '
           'Map dispatch (spec/Driver.tla): TLC checks the ISA/GS/BHT dispatch loop against the definition of the map in force per segment over every envelope history <= 8/10 (+ random to 18/26) on the real '
           'index, every history is run through x12n_document (map of the node handed to the callback, check_837_lx flag, Map-not-found position) and judged by T_Driver.',
-  'note': '"In order" = strict map order; repeat counts capped (2 / 3); values are proposed by the concretiser per element definition (first listed / first fitting external code, type- and '
+  'note': 'Three fill modes: needed elements only / every situational element / every situational element with every free value at its declared MAXIMUM length (every third document); a wrapper loop is entered through any of its child loops (DocGen EnterWrapper). "In order" = strict map order; repeat counts capped (2 / 3); values are proposed by the concretiser per element definition (first listed / first fitting external code, type- and '
           'length-shaped literals, qualifier-selected date formats) - a wrong proposal would show as a rejection to investigate, never hidden; maps with undefined data elements or an ISA '
           'version the reader refuses are left to C16; files mixing a 997/999 group with others are not claimed. Trusted: TLC, mapexport, concretiser, recorders in lib/walkcommon.py.',
   'technique': 'TLA+ model checking (TLC) of map-language generator x walker model + replay of TLC-generated documents into x12n_document + TLC trace validation of outcomes and walker calls',
@@ -135,7 +137,7 @@ CLAIMS = {
           'unknown / missing required / over-max segment, over-max loop) with its locality (a fault on a qualifier element or a segment-level fault is structural); one plan is applied per run '
           '(value built to break exactly one constraint, SE count kept consistent) and the faulted document validated by the real x12n_document; T_Fault (TLC) judges each record: verdict false, '
           'an error with a matching standard code at the injected segment and element position, and for local faults nothing else reported, the faulted set rejected and the other sets accepted.',
-  'note': 'Quick: 4 covering documents per map on 6 maps, up to 45 sampled plans per kind and map (~2000 runs); thorough: 40 documents per map on every loadable map, all plans. NotUsedSeg, '
+  'note': 'Plans run on random deep walks of the map (4 documents reach 58/58 segment nodes of the 835, 201/395 of the 837P); every broken-note plan also in the variant where the segment ends at the element the note hangs on; bad codes avoid the qualifiers of same-id segments; a fault outside any set has no faulty set. Quick: 4 documents per map on 6 maps, up to 45 sampled plans per kind and map (~3000 runs); thorough: 40 documents per map on every loadable map, all plans. NotUsedSeg, '
           'OutOfPlaceSeg and E-type notes are not generated yet; HL/LX counters and qualifier-typed dates are excluded from length/class faults (they would break two constraints). '
           'Three recorded findings (mis-localised syntax / too-many errors). Trusted: TLC, plan application in lib/c03.py.',
   'technique': 'TLC enumeration of fault plans over the exported map + injection into TLC-generated documents + TLC trace validation of the recorded error trees and acknowledgements',
@@ -146,7 +148,7 @@ CLAIMS = {
           'plans of C03 (every kind), and buffer-sized 837 documents with the terminators shifted over 24/48 alignments - are rendered under 8/14 encodings (4 delimiter triples incl. newline-terminated '
           'and binary separators x line-break conventions) and validated by the real x12n_document; per document TLC (T_Delims) requires verdict, error set (level, code, segment position, element and '
           'component position, offending value) and acknowledgement body to equal those of the reference encoding.',
-  'note': 'Delimiters never occur in the data (excluded by the property); offending values and acknowledgement elements are compared after mapping delimiter characters to canonical ones; '
+  'note': 'Besides map-level single faults, RawPiece documents carry pieces the tokenizer must treat alike under every encoding (separators only, blanks only, an id followed by separators only, leading blank, trailing separators). Delimiters never occur in the data (excluded by the property); offending values and acknowledgement elements are compared after mapping delimiter characters to canonical ones; '
           'the binary triple uses ">" as component separator (a control character in ISA16 is itself rejected). Trusted: TLC, concretiser/renderer, recorders.',
   'technique': 'TLA+ model checking (TLC) of Oracle o Encode = id + metamorphic replay of TLC-generated documents under all encodings + TLC trace validation of the observations',
  },
@@ -167,7 +169,7 @@ CLAIMS = {
           'documents from TLC DocGen (coverage set, documents with one loop id at two paths, random deep walks) with & < > \' " and blanks in free-text values under 3 delimiter triples are converted '
           'by x12n_document(fd_xmldoc) and back by xmlx12_simple.convert; T_Xml (TLC) validates well-formedness, the loop/segment event sequence against DefStep over the map path of the node each '
           'segment matched, that the ele/subele labels are reference designators rebuilding the source segment (not-used elements and ISA separator fields excepted), and the round trip.',
-  'note': 'Placement oracle = the node pyx12 matched (callback), itself bound to the walker transcription in C02; sibling nodes reporting one path are told apart by their qualifier codes; the base-class '
+  'note': 'Every string TLC enumerates over the markup alphabet (<= 4/5 characters, entity-shaped text included) is written by the real XMLWriter as content and attribute and read back with a standard XML parser (escape_* clauses; drift against the model Escape). Placement oracle = the node pyx12 matched (callback), itself bound to the walker transcription in C02; sibling nodes reporting one path are told apart by their qualifier codes; the base-class '
           'seg_context output and DTD validity are not covered. No shipped map has character-prefix sibling loop ids (scanned), so the latent step difference cannot manifest there.',
   'technique': 'TLA+ model checking (TLC) of the XML path state machine and escaping + replay of TLC-generated documents through both converters + TLC trace validation',
  },
